@@ -78,6 +78,30 @@ func checkCfgAlgebra(c PCfg) (msg string, bad bool) {
 	if !reflect.DeepEqual(cfg, orig) {
 		return "json.Marshal modified the configuration", true
 	}
+	// what the caller does with a parsed configuration is its own business:
+	// the same document parsed again (and the document itself overwritten
+	// in between) yields the same fields again
+	bv := reflect.ValueOf(back).Elem()
+	for i := 0; i < bv.NumField(); i++ {
+		switch f := bv.Field(i); f.Kind() {
+		case reflect.Int:
+			f.SetInt(f.Int() + 7)
+		case reflect.String:
+			f.SetString(f.String() + "?")
+		}
+	}
+	back.SetDefaults()
+	b2 := append([]byte(nil), b...)
+	again, err := lz.ParseJSON(b2)
+	for i := range b2 {
+		b2[i] = ' '
+	}
+	if err != nil || !reflect.DeepEqual(again, orig) {
+		return fmt.Sprintf("the document %s parsed a second time (after the first result was modified by its owner) = %+v, %v; want %+v", b, again, err, orig), true
+	}
+	if third, err := lz.ParseJSON(b); err != nil || !reflect.DeepEqual(third, orig) {
+		return fmt.Sprintf("the document %s parsed a third time (after the caller overwrote the slice of the second call) = %+v, %v; want %+v", b, third, err, orig), true
+	}
 	// --- the document of this type decoded into every other type is rejected
 	for _, k := range Kinds {
 		if k == c.Kind {
